@@ -232,7 +232,23 @@ Inductive op :=
 | Free (h : nat)
 | EprKeep (n : nat) (recv : bool)
 | EprContext (n : nat) (recv : bool)
+| EprKeepSeq (n : nat) (recv : bool)   (* keep, sequential=True, post_routine measures the pair *)
 | Flush.
+
+(* sequential keep: every pair gets the same ID (_create_ent_qubits, `sequential`):
+   0 on NV after relocation, else the lowest unused one; n handles carry it *)
+Fixpoint add_handles (s : sdk) (v n : nat) : sdk :=
+  match n with 0 => s | S m => add_handles (add_handle s v) v m end.
+Definition seq_handles (k : cfg) (s : sdk) (n : nat) : res (sdk * nat) :=
+  if nv k then
+    match free_up0 s with
+    | inr e => inr e
+    | inl s1 => inl (add_handles (commit s1) 0 n, 0)
+    end
+  else match new_id (ids s) with
+       | None => inr ErrFuel
+       | Some v => inl (add_handles (commit s) v n, v)
+       end.
 
 (* _build_cmds_measure: on NV a qubit that is not at ID 0 is measured after the
    qubit occupying ID 0 (if any) has been moved away *)
@@ -305,6 +321,15 @@ Definition sdk_step (k : cfg) (s : sdk) (o : op) : res sdk :=
                let s2 := emit s1 (ctx_loop vs) in
                inl (mkSdk (drop_last_handles n (active s2)) (next_h s) (pending s2) (last_new s2))
            end
+  | EprKeepSeq n _ =>
+      if n =? 0 then inr ErrUnmodelled
+      else match seq_handles k s n with
+           | inr e => inr e
+           | inl (s1, v) =>
+               (* _build_cmds_post_epr: pair after pair is delivered, measured by the
+                  post routine and freed; the n handles handed to the host stay active *)
+               inl (emit s1 (ctx_loop (repeat (if single_comm k then 0 else v) n)))
+           end
   | Flush => inl s
   end.
 
@@ -375,6 +400,7 @@ Definition in_budget (k : cfg) (s : sdk) (o : op) : bool :=
   | Gate1 h | MeasureInplace h | MeasureDestructive h | Free h => live s h
   | Gate2 h1 h2 => live s h1 && live s h2 && negb (h1 =? h2)
   | EprKeep n _ | EprContext n _ => (1 <=? n) && (length (active s) + n <=? budget k)
+  | EprKeepSeq n _ => (1 <=? n) && (length (active s) + 1 <=? budget k)   (* one pair alive at a time *)
   | Flush => true
   end.
 
@@ -395,8 +421,11 @@ Definition hits_nv_context (k : cfg) (o : op) : bool :=
   | EprContext n _ => nv k && (2 <=? n)
   | _ => false
   end.
+(* C09:sequential-keep-handles-stay-active *)
+Definition hits_sequential_keep (o : op) : bool :=
+  match o with EprKeepSeq _ _ => true | _ => false end.
 Definition outside_findings (k : cfg) (s : sdk) (o : op) : bool :=
-  negb (hits_carbon_gate k s o) && negb (hits_nv_context k o).
+  negb (hits_carbon_gate k s o) && negb (hits_nv_context k o) && negb (hits_sequential_keep o).
 
 (* a predicate holds before every operation of the program (states follow the
    SDK model; the walk ends where the SDK refuses an operation) *)
